@@ -510,6 +510,19 @@ func genOpts(w *bufio.Writer, r *rng, id, size int) {
 		return
 	}
 	fmt.Fprintln(w, dumpBuilder(d))
+	// the call itself (the target takes no parameters: the options must be examined all the same)
+	callres := "ok"
+	if recovered(func() {
+		if res := target.Call(call...); res.Err() != nil {
+			callres = "err"
+			if strings.Contains(res.Err().Error(), "arg cannot be nil") {
+				callres = "nilarg"
+			}
+		}
+	}) {
+		callres = "panic"
+	}
+	fmt.Fprintf(w, "callres %s\n", callres)
 	// the same options in a random order (judged only when all keys are distinct)
 	p := r.perm(len(specs))
 	var shuffled []am.Arg
@@ -588,6 +601,16 @@ func genResult(w *bufio.Writer, r *rng, id, size int) {
 			}
 		}
 	}
+	if r.chance(1, 8) {
+		// a single result that is a pointer to a marker struct with one value: an ordinary output (the pointer itself)
+		st := structFor([]lab{{Ty: 0}})
+		sv := reflect.New(st)
+		sv.Elem().Field(1).Set(mkValue(0, 10, -1))
+		outs, rets, desc = []reflect.Type{reflect.PtrTo(st)}, []reflect.Value{sv}, []string{"S:10"}
+		if r.chance(1, 2) {
+			outs, rets, desc = append(outs, errType), append(rets, reflect.Zero(errType)), append(desc, "E:0")
+		}
+	}
 	resolveFails := r.chance(1, 6)
 	var ins []reflect.Type
 	if resolveFails {
@@ -617,6 +640,14 @@ func genResult(w *bufio.Writer, r *rng, id, size int) {
 			o := res.Out(i)
 			if p, ok := o.(*E0); ok && p == nil && i < len(desc) && desc[i] == "E:1" {
 				os = append(os, "1") // the typed nil pointer handed back as an ordinary output
+			} else if i < len(desc) && strings.HasPrefix(desc[i], "S:") {
+				// the pointer to the result struct, as returned: rendered by the id in its field
+				ov := reflect.ValueOf(o)
+				if ov.IsValid() && ov.Kind() == reflect.Ptr && !ov.IsNil() && ov.Elem().Kind() == reflect.Struct && ov.Elem().NumField() == 2 {
+					os = append(os, fmt.Sprint(vidOf(ov.Elem().Field(1))))
+				} else {
+					os = append(os, "888888") // not the pointer the function returned
+				}
 			} else if i < len(desc) && desc[i] == "C:0" && o == nil {
 				os = append(os, "777777") // a nil *E0 was returned: the output must be that typed nil, not an untyped one
 			} else {
@@ -648,22 +679,30 @@ func genResult(w *bufio.Writer, r *rng, id, size int) {
 	fr := "skip"
 	if e == nil && ln > 0 {
 		fr = "intact"
-		if recovered(func() {
-			for k := 0; k < 2; k++ {
-				if err := fn.Output().FromResult(res); err != nil {
-					fr = "err"
+		ptrStruct := len(desc) > 0 && strings.HasPrefix(desc[0], "S:")
+		unchanged := func() {
+			for i := 0; i < ln && i < len(os); i++ {
+				o := res.Out(i)
+				if o != nil && reflect.TypeOf(o) != outs[i] && !(outs[i].Kind() == reflect.Interface && reflect.TypeOf(o).Implements(outs[i])) {
+					fr = fmt.Sprintf("out%d_became_%s", i, strings.ReplaceAll(reflect.TypeOf(o).String(), " ", "_"))
 					return
 				}
-				for i := 0; i < ln && i < len(os); i++ {
-					o := res.Out(i)
-					if o != nil && reflect.TypeOf(o) != outs[i] && !(outs[i].Kind() == reflect.Interface && reflect.TypeOf(o).Implements(outs[i])) {
-						fr = fmt.Sprintf("out%d_became_%s", i, strings.ReplaceAll(reflect.TypeOf(o).String(), " ", "_"))
-						return
-					}
-				}
 			}
-		}) {
-			fr = "panic"
+		}
+		for k := 0; k < 2 && fr == "intact"; k++ {
+			var lerr error
+			if recovered(func() { lerr = fn.Output().FromResult(res) }) {
+				// (loading a pointer-to-struct result is not something the library supports: it panics, which no
+				// property forbids — but the result must still be what it was)
+				if !ptrStruct {
+					fr = "panic"
+				}
+			} else if lerr != nil {
+				fr = "err"
+			}
+			if fr == "intact" {
+				unchanged()
+			}
 		}
 	}
 	if len(fr) > 60 {
